@@ -28,6 +28,13 @@ func init() {
 }
 
 func runC18(c *an.Ctx) {
+	if c.P.Pkg("http") == nil || c.P.Func("http.WrapHandler") == nil {
+		if c.P.Cfg.Name == "tinygo" {
+			c.Note("R1", "http middleware", 0, "the net/http middleware is excluded from the tinygo build (//go:build !tinygo): nothing to check in this configuration")
+			c.OkTrivial("R1", "http middleware not part of this build configuration", 0, "package http is not compiled under the tinygo tag")
+			return
+		}
+	}
 	wh := c.Fn("R1", "http.WrapHandler")
 	if wh == nil {
 		return
